@@ -2,6 +2,7 @@
 import sys
 import common
 import core_checks
+import coreops
 
 RULE = ("random models and op sequences as for C01, all argument shapes (objects, ids, copies, combine/replace, destructive, remove_orphans); "
         "cross-reference oracle (identity, ownership, back-references, genes of rule, zero coefficients, groups) after every step; "
@@ -9,7 +10,7 @@ RULE = ("random models and op sequences as for C01, all argument shapes (objects
 
 
 def run(ctx):
-    return core_checks.run_core_property(ctx, "CobraModel.Props.C02", kinds=None, oracles=("xref",), quick=300, thorough=6000, rule=RULE)
+    return core_checks.run_core_property(ctx, "CobraModel.Props.C02", kinds=None, oracles=("xref",), quick=300, thorough=6000, rule=RULE, profiles=coreops.PROFILES)
 
 
 if __name__ == "__main__":
